@@ -140,6 +140,7 @@ type c17Image struct {
 	img   dirImage
 	label string // crash point / cut description
 	model string // process-crash | power-loss
+	acked bool   // taken after the operation returned: only the state after it is acceptable
 }
 
 var c17ID = quickfix.SessionID{BeginString: "FIX.4.2", SenderCompID: "SND", TargetCompID: "TGT"}
@@ -260,6 +261,10 @@ func c17Images(hist []c17Op, scratch string) (images []c17Image, before, after c
 		return nil, before, after, false, e
 	}
 	after = m.clone()
+	if ok {
+		// the operation has returned (it is acknowledged): with FileStoreSync=Y a power loss now keeps its effect
+		images = append(images, c17Image{img: durable.clone(), label: "after the operation returned", model: "power-loss", acked: true})
+	}
 	return images, before, after, ok, nil
 }
 
@@ -292,6 +297,9 @@ func c17Judge(img c17Image, last c17Op, before, after c17State, scratch string) 
 			return nil, d, err // the factory may hand back a typed nil store with the error
 		}
 		return st, d, nil
+	}
+	if img.acked {
+		before = after // only the state after the acknowledged operation is acceptable
 	}
 	st, d, err := openImage()
 	defer func() {
@@ -515,7 +523,7 @@ func runC17(c *core.Ctx) {
 	if !quick {
 		n = 4
 	}
-	c.SetRule(fmt.Sprintf("file store (FileStoreSync=Y): every history of <= %d operations over {save-and-increment, save, increment target, set sender/target, Reset, Refresh, reopen}; the last operation is interrupted at every hook point, with the in-flight write cut at every byte (append: every prefix; rewrite: new[:k]+old[k:]), under the process-crash model (completed writes kept) and the power-loss model (per file only what was last fsynced); every distinct image is reopened by the real store, checked (R1 reopen, R2 completed saves, R3 counters, R4 counter vs message, R5 no torn/foreign bytes) and continued with three follow-up scenarios. SQL store: every driver call of save-and-increment (and of the other operations) is failed in turn on sqlite", n))
+	c.SetRule(fmt.Sprintf("file store (FileStoreSync=Y): every history of <= %d operations over {save-and-increment, save, increment target, set sender/target, Reset, Refresh, reopen}; the last operation is interrupted at every hook point, with the in-flight write cut at every byte (append: every prefix; rewrite: new[:k]+old[k:]), under the process-crash model (completed writes kept) and the power-loss model (per file only what was last fsynced); and, once the operation has returned, the power-loss image must show its effect; every distinct image is reopened by the real store, checked (R1 reopen, R2 completed saves, R3 counters, R4 counter vs message, R5 no torn/foreign bytes) and continued with three follow-up scenarios. SQL store: every driver call of save-and-increment (and of the other operations) is failed in turn on sqlite", n))
 	c.Assume("file creation/removal is durable when performed; within one write any prefix may reach the disk", "between operations everything written has been fsynced (FileStoreSync=Y)",
 		"distinct = distinct (history, crash image) pairs; identical images of one history are judged once")
 	scratch, cleanup := core.Scratch("c17")
@@ -578,7 +586,7 @@ func runC17(c *core.Ctx) {
 		}
 		seen := map[string]bool{}
 		for _, img := range images {
-			k := img.model + "|" + img.img.key()
+			k := fmt.Sprintf("%s|%v|%s", img.model, img.acked, img.img.key())
 			if seen[k] {
 				continue
 			}
